@@ -17,7 +17,7 @@ def needs_sep(prev, tk):
     return False
 
 
-WS_STRAY_CR = WS_RANDOM + ["\r", "\r  ", " \r", "\r\r", "\n\r"]
+WS_STRAY_CR = WS_RANDOM + ["\r", "\r  ", " \r", "\r\r", "\n\r", "\r\n\n", "\n\r\n", "\r\n\r"]     # lone CRs and mixed line endings
 
 
 def assign_ws(toks, rng, style="random", eol="\n", force=False, stray_cr=False):
